@@ -300,6 +300,21 @@ def run_case(case) -> Outcome:
                         got = b"".join(d for _, d in res["blocks"])
                         if got != want:
                             out.bad(f"expansions-wrong-encoding:{label}", sub, f"instances of one source line with operands {[hex(v) for v in values]}: emitted {got.hex()} expected {want.hex()}\n{text}")
+        # the width of an unsuffixed operand is a matter of its value alone: not of the rep / sep instructions assembled before it
+        for shape in (("#", None, None), ("", None, None)):
+            for pre, pre_bytes in (("rep #0x30", b"\xc2\x30"), ("rep #0x20", b"\xc2\x20"), ("rep #0x10\nsep #0x20", b"\xc2\x10\xe2\x20"), ("sep #0x30\nrep #0x30", b"\xe2\x30\xc2\x30")):
+                for v in (0x01, 0xFF, 0x100):
+                    e = expected(m, shape, "", v)
+                    if e[0] != "op" or (m, shape[0], shape[1], shape[2], e[2]) not in supported():
+                        continue
+                    text = "*=0x008000\n" + pre + "\n" + render_line(m, shape, "", "0x%x" % v, "lower") + "\n"
+                    res = driver.assemble_mem(text)
+                    out.evals += 1
+                    out.nontrivial += 1
+                    want = pre_bytes + bytes([e[1]]) + v.to_bytes(e[2], "little")
+                    got = b"".join(d for _, d in res["blocks"]) if res.accepted else None
+                    if got != want:
+                        out.bad(f"after-rep-sep:{m}:{shape[0] or 'plain'}", {"t": "expansions", "m": m}, f"after `{pre}` the line `{render_line(m, shape, '', '0x%x' % v, 'lower')}` assembled to {got.hex() if got else res['exc']}, expected {want.hex()}\n{text}")
         out.sample = {"mnemonic": m, "what": "one source line, several expansions with operands of different width classes"}
         return out
     if t == "one":
